@@ -25,6 +25,8 @@ Section Spec.
   (* what was observed: did the caller get an exception; destination and part file afterwards;
      did an unlink of the part file itself fail; are all other directory entries untouched *)
   Variables (raised : bool) (dest1 part1 : option file) (unlink_part_failed others_unchanged : bool).
+  (* the other process really created the (then absent) destination while the save was running *)
+  Variable intruded : bool.
   (* an immediate retry of the same save without failures: (raised, destination, part file present) *)
   Variable retry : option (bool * option file * bool).
 
@@ -78,9 +80,12 @@ Section Spec.
 
   Definition failed_ok : bool := dest_unchanged && cleaned_up && retry_ok.
 
+  (* "overwrite=False and the destination ... appears before completion": the save must not complete *)
+  Definition noclobber_ok : bool := overwrite || negb intruded || raised.
+
   (* never a silent failure: either the caller got an exception and nothing changed,
      or the save is complete *)
   Definition c05_spec : bool :=
     (if raised then failed_ok else completed_ok && negb invalid_args) &&
-    stale_part_respected && refusal_ok && others_unchanged.
+    stale_part_respected && refusal_ok && noclobber_ok && others_unchanged.
 End Spec.
